@@ -668,7 +668,7 @@ Definition lib_supportedb (l : lef_lib) : bool :=
 Definition lib_supported (l : lef_lib) : Prop := lib_supportedb l = true.
 
 (** * Well-formed styles *)
-Definition ws_char_ok (c : Z) : bool := (c =? 32) || (c =? 9) || (c =? 10) || (c =? 13).
+Definition ws_char_ok (c : Z) : bool := (c =? 32) || (c =? 9) || (c =? 10) || (c =? 13) || (c =? 11) || (c =? 12).
 Definition comment_ok (t : bytes) : bool := utf8_validb t && negb (existsb (fun b => b =? 10) t).
 Definition sep_item_ok (i : sep_item) : bool :=
   match i with SWs c => ws_char_ok c | SComment t => comment_ok t end.
